@@ -235,6 +235,8 @@ class ProofPart:
         res = verus_run.run(path, rlimit=rl, extra=getattr(u, 'VERUS_EXTRA', ()))
         r.checker_cmd = 'verus <assembled %s> --rlimit %d %s (%s)' % (self.label, rl, ' '.join(getattr(u, 'VERUS_EXTRA', ())), res.get('verus_version') or 'verus')
         r.smt_ms = res.get('smt_ms', 0)
+        for sk in getattr(asm, 'skipped', []):
+            r.notes.append('not under contract: ' + sk)
         lost = [(it.name, w) for it in asm.items() for w in it.lost]
         for nm, w in lost:
             r.notes.append('lost hint anchor in %s: %s' % (nm, w))
